@@ -55,8 +55,9 @@ THEOREMS = [
     "AiuVerif.C12.shares_sum_100",
     "AiuVerif.C12.elapsed_active_spec",
     "AiuVerif.C12.rows_ordered",
+    "AiuVerif.C12.run_ok_iff",
 ]
-RULE = ("stage level: all event streams of length <= L (L=3 quick, 4 thorough) over a 12-letter alphabet "
+RULE = ("stage level: all event streams of length <= L (L=4 quick, 5 thorough) over a 12-letter alphabet "
         "(three spellings of one masked kernel name, a second kernel with a tying total, a second pid, "
         "non-kernel X/C events, zero duration, missing TS counters) plus random streams of up to 60 events "
         "(1-4 pids, names built from separators/digit runs, durations on the 1/4 us grid with repeats); "
@@ -493,18 +494,18 @@ def rand_e2e(rng, i):
 
 
 def gen_stage_cases(ctx: Ctx):
-    L = 3 if ctx.quick() else 4
+    L = 4 if ctx.quick() else 5
     for n in range(0, L + 1):
         for combo in itertools.product(range(len(ALPHABET)), repeat=n):
             yield {"kind": "stage", "events": [ALPHABET[i] for i in combo]}
     ctx.extra["exhaustive_upto_len"] = L
     ctx.extra["alphabet"] = len(ALPHABET)
-    for _ in range(ctx.n(1500, 12000)):
+    for _ in range(ctx.n(2500, 20000)):
         yield {"kind": "stage", "events": rand_stream(ctx.rng)}
 
 
 def gen_e2e_cases(ctx: Ctx):
-    for i in range(ctx.n(35, 280)):
+    for i in range(ctx.n(60, 400)):
         yield rand_e2e(ctx.rng, i)
 
 
